@@ -1,6 +1,6 @@
 //! Contains connection related API.
 
-use core::{fmt::Debug, str::from_utf8_unchecked};
+use core::fmt::Debug;
 
 use crate::{varlink_service, Result};
 
@@ -137,13 +137,14 @@ impl<Read: ReadHalf> ReadConnection<Read> {
             self.msg_pos = null_index + 1;
         }
 
-        match serde_json::from_slice::<M>(buffer) {
+        // A JSON text is UTF-8 but `serde_json` only validates the strings the target type asks
+        // for, so check the whole frame before it is decoded (and logged) as text.
+        let text = core::str::from_utf8(buffer).map_err(|e| {
+            <serde_json::Error as serde::de::Error>::custom(format_args!("frame is not UTF-8: {e}"))
+        })?;
+        match serde_json::from_str::<M>(text) {
             Ok(msg) => {
-                // SAFETY: Since the parsing from JSON already succeeded, we can be sure that the
-                // buffer contains a valid UTF-8 string.
-                trace!("connection {}: received a message: {}", self.id, unsafe {
-                    from_utf8_unchecked(buffer)
-                });
+                trace!("connection {}: received a message: {}", self.id, text);
                 Ok(msg)
             }
             Err(e) => Err(e.into()),
